@@ -3,7 +3,9 @@
      * the loader accepts child lists that are not in specification order (it does not check sequence order, and sees a
        Choice conflict only between neighbours);
      * a cross-version copy keeps the ElementType of its source although the name resolves to another type in the version
-       of the target file (known finding C07-copy-keeps-source-type). *)
+       of the target file (known finding C07-copy-keeps-source-type);
+     * inside one version a move (or copy) below a parent that lists the name with another type keeps the type too, and the
+       loader does not accept the result (known finding C07 move-keeps-source-type). *)
 From AV Require Import Base.Bytes Base.Outcome Hash.HashModel Spec.SpecOps Spec.SpecReal Tree.Heap Tree.Ops Tree.Script Tree.Inv Tree.Range
   Tree.SpecWF Tree.SpecWFReal Tree.Project.
 Open Scope list_scope.
@@ -55,6 +57,53 @@ Proof.
   split; [vm_compute; reflexivity|].
   split; [vm_compute; reflexivity|].
   vm_compute. discriminate.
+Qed.
+
+(* ---- move keeps the source type, inside ONE version and ONE model (known finding C07 move-keeps-source-type; first seen by
+   agent-c17, findings/C17-attach-keeps-stored-type.json) ----
+   History (the validator of item names accepts everything; the three names n1 n2 n3 are valid identifiers anyway):
+   AR-PACKAGES / AR-PACKAGE n1 / ELEMENTS / FLEXRAY-TP-CONFIG n2 (1495) / TP-ECUS (88) / FLEXRAY-TP-ECU (862), and beside it
+   CAN-TP-CONFIG n3 (298).  move_element_here(CAN-TP-CONFIG, TP-ECUS) succeeds: CAN-TP-CONFIG lists the NAME TP-ECUS — with
+   datatype 519, whose only sub-element is CAN-TP-ECU.  The moved element keeps type (8232, 2216); the loader reads it with
+   (8231, 519) and meets FLEXRAY-TP-ECU, which that type does not list: IncorrectBeginElement.  In terms of Tree/Project.v:
+   no LoaderWalk of depth 2 from the destination.  The side condition attach_ok of move_attach_walk excludes exactly this. *)
+Definition ok_check : N -> list N -> res bool := fun _ _ => Val true.
+Definition attach_ops : list op :=
+  [OpNewModel; OpCreateFile 0 [102; 48] REAL_LATEST; OpCreateSub 0 5413; OpCreateNamed 1 5250 [110; 49]; OpCreateSub 2 3929;
+   OpCreateNamed 4 1495 [110; 50]; OpCreateSub 5 88; OpCreateSub 7 862; OpCreateNamed 4 298 [110; 51]].
+
+Lemma move_keeps_source_type :
+  forall (tab_el tab_en : nametab) (check_fn : N -> list N -> res bool) (root_attrs : list (N * cdata)),
+  exists (w : world) (h mv : id) (w' : world) (n nc ncc : node) (cc : id) (v : N) (et : etype) (ix : list N),
+    run_ops RT tab_el tab_en ok_check REAL_LATEST root_attrs attach_ops (mkWorld (fun _ => None) 0 [] []) = Val w /\
+    e_move_element_here RT tab_en check_fn REAL_LATEST h mv w = Val (OK mv, w') /\
+    w_nodes w' h = Some n /\ w_nodes w' mv = Some nc /\ In (CElem mv) (n_content n) /\
+    min_version REAL_LATEST h w' = Val (OK v, w') /\
+    find_sub_element RT (n_type n) (n_name nc) v = Val (Some (et, ix)) /\
+    snd (n_type nc) <> snd et /\
+    In (CElem cc) (n_content nc) /\ w_nodes w' cc = Some ncc /\
+    find_sub_element RT (n_type nc) (n_name ncc) v <> Val None /\
+    find_sub_element RT et (n_name ncc) v = Val None /\
+    ~ LoaderWalk RT 2 w' v h (n_type n).
+Proof.
+  intros tab_el tab_en check_fn root_attrs.
+  eexists. exists 9, 7. eexists. eexists. eexists. eexists. exists 8, REAL_LATEST, (8231, 519), [13].
+  split; [vm_compute; reflexivity|].
+  split; [vm_compute; reflexivity|].
+  split; [vm_compute; reflexivity|].
+  split; [vm_compute; reflexivity|].
+  split; [right; left; reflexivity|].
+  split; [vm_compute; reflexivity|].
+  split; [vm_compute; reflexivity|].
+  split; [vm_compute; discriminate|].
+  split; [left; reflexivity|].
+  split; [vm_compute; reflexivity|].
+  split; [vm_compute; discriminate|].
+  split; [vm_compute; reflexivity|].
+  intros (n & items & Hn & _ & _ & Hk). vm_compute in Hn. injection Hn as <-.
+  destruct (Hk 7 _ (or_intror (or_introl eq_refl)) eq_refl) as (et & ix & HF & (n7 & items7 & Hn7 & _ & _ & Hk7)).
+  vm_compute in HF. injection HF as <- <-. vm_compute in Hn7. injection Hn7 as <-.
+  destruct (Hk7 8 _ (or_introl eq_refl) eq_refl) as (et8 & ix8 & HF8 & _). vm_compute in HF8. discriminate.
 Qed.
 
 (* ---- "every node of every reachable world is Ordered for its CURRENT min_version" is false ----
